@@ -33,8 +33,9 @@ struct State {
     char last_violation[160] = {0};
     int fmt_check = 1;
     uint64_t log_calls = 0;
-    vp_global_cfg g{};
 };
+// machine-wide configuration: process-wide even in the TLS flavour (written by the harness only while no worker thread runs)
+vp_global_cfg G{};
 VP_TLS State *Sp = nullptr;
 State &S() {
     if (!Sp) Sp = new State();
@@ -52,8 +53,6 @@ void vp_reset_all(void) {
     State &s = S();
     clear_log(s);
     vp_ledger_forget_all();
-    vp_global_cfg keep = s.g;  // harness-owned pointers: harness resets them itself
-    (void)keep;
     s.now_ms = 1000;
     s.sleep_advances = 0;
     s.log_on = 1;
@@ -66,9 +65,9 @@ void vp_reset_all(void) {
     s.violations = 0;
     s.last_violation[0] = 0;
     s.log_calls = 0;
-    memset(&s.g, 0, sizeof(s.g));
+    memset(&G, 0, sizeof(G));
 }
-vp_global_cfg *vp_global(void) { return &S().g; }
+vp_global_cfg *vp_global(void) { return &G; }
 
 void vp_set_now_ms(uint64_t ms) { S().now_ms = ms; }
 uint64_t vp_now_ms(void) { return S().now_ms; }
@@ -139,6 +138,10 @@ void lltd_port_free(void *ptr) {
     if (!ptr) return;
     auto it = s.live.find(ptr);
     if (it == s.live.end()) {
+#ifdef VPORT_TLS
+        free(ptr);   // per-thread ledgers: a block may be released by a thread other than its allocator; the ledger is not an oracle in this flavour
+        return;
+#endif
         s.violations++;
         snprintf(s.last_violation, sizeof s.last_violation,
                  "lltd_port_free(%p): pointer not live in the ledger (double or foreign free)", ptr);
@@ -190,6 +193,11 @@ int lltd_port_send_frame(void *ctx, const void *frame, size_t len) {
 }
 
 #define VIF(ctx) ((vif *)(ctx))
+#ifdef VPORT_TLS
+#define GCALL(bit) ((void)0)   /* no shared writes from receive threads */
+#else
+#define GCALL(bit) (G.calls_mask |= (bit))
+#endif
 
 int lltd_port_get_mtu(void *ctx, size_t *out) {
     vif *v = VIF(ctx);
@@ -216,24 +224,24 @@ static int hand_out(const uint8_t *src, size_t len, void **out_data, size_t *out
 
 int lltd_port_get_icon_image(void **out_data, size_t *out_size) {
     State &s = S();
-    s.g.calls_mask |= VG_ICON;
-    if ((s.g.fail & VG_ICON) || !s.g.icon) {
+    GCALL(VG_ICON);
+    if ((G.fail & VG_ICON) || !G.icon) {
         if (out_data) *out_data = nullptr;
         if (out_size) *out_size = 0;
         return -1;
     }
-    return hand_out(s.g.icon, s.g.icon_len, out_data, out_size);
+    return hand_out(G.icon, G.icon_len, out_data, out_size);
 }
 
 int lltd_port_get_friendly_name(void **out_data, size_t *out_size) {
     State &s = S();
-    s.g.calls_mask |= VG_FRIENDLY;
-    if ((s.g.fail & VG_FRIENDLY) || !s.g.friendly) {
+    GCALL(VG_FRIENDLY);
+    if ((G.fail & VG_FRIENDLY) || !G.friendly) {
         if (out_data) *out_data = nullptr;
         if (out_size) *out_size = 0;
         return -1;
     }
-    return hand_out(s.g.friendly, s.g.friendly_len, out_data, out_size);
+    return hand_out(G.friendly, G.friendly_len, out_data, out_size);
 }
 
 static size_t copy_clamped(void *dst, size_t dst_len, const uint8_t *src, size_t len, int untrunc) {
@@ -245,28 +253,28 @@ static size_t copy_clamped(void *dst, size_t dst_len, const uint8_t *src, size_t
 
 size_t lltd_port_get_hostname(void *dst, size_t dst_len) {
     State &s = S();
-    s.g.calls_mask |= VG_HOSTNAME;
-    if (s.g.fail & VG_HOSTNAME) return 0;
-    return copy_clamped(dst, dst_len, s.g.hostname, s.g.hostname_len, s.g.hostname_untrunc);
+    GCALL(VG_HOSTNAME);
+    if (G.fail & VG_HOSTNAME) return 0;
+    return copy_clamped(dst, dst_len, G.hostname, G.hostname_len, G.hostname_untrunc);
 }
 size_t lltd_port_get_support_url(void *dst, size_t dst_len) {
     State &s = S();
-    s.g.calls_mask |= VG_URL;
-    if (s.g.fail & VG_URL) return 0;
-    return copy_clamped(dst, dst_len, s.g.url, s.g.url_len, 0);
+    GCALL(VG_URL);
+    if (G.fail & VG_URL) return 0;
+    return copy_clamped(dst, dst_len, G.url, G.url_len, 0);
 }
 int lltd_port_get_upnp_uuid(uint8_t out_uuid[16]) {
     State &s = S();
-    s.g.calls_mask |= VG_UUID;
-    if (s.g.fail & VG_UUID) return -1;
-    memcpy(out_uuid, s.g.uuid, 16);
+    GCALL(VG_UUID);
+    if (G.fail & VG_UUID) return -1;
+    memcpy(out_uuid, G.uuid, 16);
     return 0;
 }
 size_t lltd_port_get_hw_id(void *dst, size_t dst_len) {
     State &s = S();
-    s.g.calls_mask |= VG_HWID;
-    if (s.g.fail & VG_HWID) return 0;
-    return copy_clamped(dst, dst_len, s.g.hwid, s.g.hwid_len, 0);
+    GCALL(VG_HWID);
+    if (G.fail & VG_HWID) return 0;
+    return copy_clamped(dst, dst_len, G.hwid, G.hwid_len, 0);
 }
 
 int lltd_port_get_mac_address(void *ctx, void *out_mac) {
